@@ -41,6 +41,7 @@ type CondSpace struct {
 	Univ    Bits               // mutual-exclusion constraints between atoms
 	rec     AtomRecogniser
 	forms   map[*ssa.BasicBlock]*cformula
+	phiDepth int
 	err     string
 	backTo  map[*ssa.BasicBlock]bool // loop headers
 }
@@ -306,10 +307,12 @@ type leafRef struct {
 
 // condFormula decomposes an If condition into a boolean formula over leaves.
 type cformula struct {
-	op   byte // 'v' leaf, '!' not, '=' iff, '^' xor, 'T', 'F'
+	op   byte // 'v' leaf, '!' not, '=' iff, '^' xor, 'T', 'F', 'p' phi of booleans
 	leaf leafRef
 	a, b *cformula
 	val  ssa.Value
+	phi  *ssa.Phi
+	subs []*cformula
 }
 
 func isBool(t types.Type) bool {
@@ -329,6 +332,18 @@ func (cs *CondSpace) formulaOf(v ssa.Value) *cformula {
 	case *ssa.UnOp:
 		if x.Op == token.NOT {
 			return &cformula{op: '!', a: cs.formulaOf(x.X)}
+		}
+	case *ssa.Phi:
+		// a boolean variable assigned on several paths (e.g. ok := false; if …{ ok = true }): its value is
+		// the disjunction over incoming edges of (edge taken ∧ value on that edge). Loop-carried phis stay leaves.
+		if isBool(x.Type()) && !cs.backTo[x.Block()] && cs.phiDepth < 3 {
+			cs.phiDepth++
+			f := &cformula{op: 'p', phi: x}
+			for _, e := range x.Edges {
+				f.subs = append(f.subs, cs.formulaOf(e))
+			}
+			cs.phiDepth--
+			return f
 		}
 	case *ssa.BinOp:
 		if (x.Op == token.EQL || x.Op == token.NEQ) && isBool(x.X.Type()) {
@@ -393,6 +408,10 @@ func (cs *CondSpace) collect(f *cformula, loop bool) {
 	case '=', '^':
 		cs.collect(f.a, loop)
 		cs.collect(f.b, loop)
+	case 'p':
+		for _, sub := range f.subs {
+			cs.collect(sub, false)
+		}
 	}
 }
 
@@ -416,6 +435,20 @@ func (cs *CondSpace) evalFormula(f *cformula) Bits {
 	case '^':
 		a, b := cs.evalFormula(f.a), cs.evalFormula(f.b)
 		return or(and(a, cs.not(b)), and(cs.not(a), b))
+	case 'p':
+		r := cs.False()
+		blk := f.phi.Block()
+		for i, sub := range f.subs {
+			pred := blk.Preds[i]
+			edge := cs.False()
+			for si, sb := range pred.Succs {
+				if sb == blk {
+					edge = or(edge, cs.EdgeCond(pred, si))
+				}
+			}
+			r = or(r, and(edge, cs.evalFormula(sub)))
+		}
+		return r
 	}
 	return cs.False()
 }
@@ -437,6 +470,9 @@ func (cs *CondSpace) EvalValue(v ssa.Value) (Bits, bool) {
 		}
 		chk(f.a)
 		chk(f.b)
+		for _, sub := range f.subs {
+			chk(sub)
+		}
 	}
 	chk(f)
 	if !ok {
